@@ -241,9 +241,6 @@ theorem remove_get? : ∀ (f : List String) (d d' : J) (h k : String), f.head? =
           · simp [pure, Except.pure] at hr; subst hr; simp [get?, lookup_insert_other _ kvs (Ne.symm hk)]
     | _ => simp [remove] at hr
 
-/-- no configured field starts with the key `k`. -/
-def AvoidKey (k : String) (fs : List (List String)) : Prop := ∀ f, f ∈ fs → ∃ h, f.head? = some h ∧ h ≠ k
-
 theorem ignoreFields_get? (k : String) : ∀ (ig : List (List String)) (e e' : J), AvoidKey k ig →
     ignoreFields e ig = .ok e' → e'.get? k = e.get? k
   | [], e, e', _, h => by simp [ignoreFields] at h; subst h; rfl
@@ -258,9 +255,6 @@ theorem ignoreFields_get? (k : String) : ∀ (ig : List (List String)) (e e' : J
     | error er =>
       rw [hr] at h
       cases er <;> simp only [] at h <;> first | exact ignoreFields_get? k fs e e' ha' h | cases h
-
-/-- `k` is a payload key: not one of the four stanzas `build` removes. -/
-def PayloadKey (k : String) : Prop := k ≠ "apiVersion" ∧ k ≠ "kind" ∧ k ≠ "metadata" ∧ k ≠ "status"
 
 theorem erase4_get? (kvs : Kvs) {k : String} (hk : PayloadKey k) : lookup k (erase4 kvs) = lookup k kvs := by
   obtain ⟨h1, h2, h3, h4⟩ := hk
@@ -306,10 +300,6 @@ theorem baseBuild_obj {ig extra : List (List String)} {b e : J} (h : baseBuild i
   | obj kvs => exact ⟨kvs, rfl⟩
   | _ => simp [baseBuild] at h
 
-def leafFields : DiffBaseLeaf → List (List String)
-  | .annotations _ _ _ ig => ig
-  | .status f ig => f :: ig
-
 theorem bind_ok {α β} {x : Except Err α} {f : α → Except Err β} {b : β} (h : x >>= f = .ok b) :
     ∃ a, x = .ok a ∧ f a = .ok b := by
   cases x with
@@ -354,15 +344,6 @@ theorem multiBuild_get? {hs : Hashes} {extra : List (List String)} {k : String} 
     obtain ⟨e1, h1, h2⟩ := bind_ok h
     rw [multiBuild_get? hk ls e1 e (fun l' hl' => hav l' (List.mem_cons_of_mem _ hl')) h2,
       leafBuild_get? l hk (hav l List.mem_cons_self) h1]
-
-def diffbaseFields : DiffBaseCfg → List (List String)
-  | .leaf l => leafFields l
-  | .multi ls => ls.flatMap leafFields
-
-def progressFields : ProgressCfg → List (List String)
-  | [] => []
-  | .annotations _ :: ls => progressFields ls
-  | .status f :: ls => f :: progressFields ls
 
 theorem diffbaseBuild_get? {hs : Hashes} {extra : List (List String)} {kvs : Kvs} {e : J} {k : String}
     (d : DiffBaseCfg) (hk : PayloadKey k) (hav : AvoidKey k (diffbaseFields d))
